@@ -100,6 +100,13 @@ def norm(sps):
     return tuple(t if t.startswith('"') else t.replace(" ", "") for t in sps if t != "")
 
 
+def probe_expr(case):
+    """a condition that is true iff the invocation expands as the reference says: for a single number k,
+    `INV == k`; for an expansion to NOTHING, `INV + 1 == 1` (the unary plus remains)"""
+    inv = " ".join(case["inv"])
+    return f"{inv} + 1 == 1" if not case["out"] else f"{inv} == {int(case['out'][0])}"
+
+
 def find_probe(numeric, fails, stats):
     """The command-line route: the macro table given as `defines` of a compile command (the strings that follow
     -D), the invocation in `#if INV == k`, through finder.find: one platform and one file per case."""
@@ -113,10 +120,9 @@ def find_probe(numeric, fails, stats):
     try:
         conf, want = {}, {}
         for i, (case, tg) in enumerate(numeric):
-            k = int(case["out"][0])
             path = os.path.join(d, f"f{i}.c")
             with open(path, "w") as f:
-                f.write(f"#if {' '.join(case['inv'])} == {k}\nint t;\n#else\nint e;\n#endif\n")
+                f.write(f"#if {probe_expr(case)}\nint t;\n#else\nint e;\n#endif\n")
             defs = []
             for m in case["macros"].values():
                 head, body = define_text(m)
@@ -131,7 +137,7 @@ def find_probe(numeric, fails, stats):
                 st1, _, _, e1 = cbi.run_find(d, {name: conf[name]})
                 if e1 is not None:
                     fails.append(dict(layer="G", tags=sorted(tg | {"via.find"}), symptom=f"exception:{e1[0]}",
-                                      detail=f"-D {defs} ;; #if {' '.join(case['inv'])} == {case['out'][0]} through finder.find: {e1[1]}",
+                                      detail=f"-D {defs} ;; #if {probe_expr(case)} through finder.find: {e1[1]}",
                                       case=case))
                     if len(fails) > 20:
                         break
@@ -140,7 +146,7 @@ def find_probe(numeric, fails, stats):
             la = cbi.line_attr(st, path) or {}
             if not (name in la.get(2, ()) and name not in la.get(4, ())):
                 fails.append(dict(layer="G", tags=sorted(tg | {"via.find"}), symptom="wrong-if-truth",
-                                  detail=f"-D {defs} ;; #if {' '.join(case['inv'])} == {case['out'][0]} is false through finder.find",
+                                  detail=f"-D {defs} ;; #if {probe_expr(case)} is false through finder.find",
                                   case=case))
     finally:
         shutil.rmtree(d, ignore_errors=True)
@@ -181,8 +187,7 @@ def check_chunk(args):
             # through the truth value of #if when the expansion is one number
             if via == "define" and len(case["out"]) == 1 and case["kinds"][0] == "num" and case["out"][0].isdigit():
                 k = int(case["out"][0])
-                if len(numeric) < 400:
-                    numeric.append((case, tg))
+                numeric.append((case, tg))
                 for expr, want in ((f"{' '.join(case['inv'])} == {k}", True), (f"{' '.join(case['inv'])} == {k + 1}", False)):
                     stats["evals"] += 1
                     try:
@@ -196,6 +201,8 @@ def check_chunk(args):
                         fails.append(dict(layer="G", tags=sorted(tg | {"via.if"}), symptom="wrong-if-truth",
                                           detail=f"{desc} ;; #if {expr} -> {r}", case=case))
                         break
+            if via == "define" and case["out"] == []:
+                numeric.append((case, tg))
             # history: #undef O / #define O <new body> on the SAME platform (same macro objects for F
             # and G), then the same line again: the result must be that of the new table
             if via == "define" and not case["ill2"]:
@@ -217,7 +224,11 @@ def check_chunk(args):
                                       detail=f"{desc} ;; then #undef O / #define O {' '.join(case['redef']['body'])} ;; "
                                              f"{' '.join(case['inv'])} -> {' '.join(got2)} ; ISO C: {' '.join(case['out2'])}", case=case))
                     break
-    find_probe(numeric, fails, stats)
+    # all cases with a macro defined EMPTY (what -DNAME= must mean), and a sample of the others
+    empties = [x for x in numeric if any(m["body"] == [] for m in x[0]["macros"].values())]
+    others = [x for x in numeric if not any(m["body"] == [] for m in x[0]["macros"].values())]
+    random.Random(seed).shuffle(others)
+    find_probe(empties[:300] + others[:300], fails, stats)
     return fails, stats
 
 
